@@ -39,13 +39,23 @@ log = logging.getLogger(__name__)
 class ComparisonExpression:
     """An expression to compare to values."""
 
-    def __init__(self, operator: Callable[[Any], bool], value: Any) -> None:
+    def __init__(
+        self, operator: Callable[[Any], bool], value: Any, name: Optional[str] = None
+    ) -> None:
         if not isinstance(value, (int, float)):
             raise ColangValueError(
                 f"Comparison operators don't support values of type '{type(value)}'"
             )
         self.value = value
         self.operator = operator
+        # The name of the Colang function that creates the expression (needed to
+        # serialize a state that holds the expression in a variable)
+        self.name = name
+
+    @classmethod
+    def from_name(cls, name: str, value: Any) -> "ComparisonExpression":
+        """Create the expression that the Colang function `name` creates."""
+        return COMPARISON_OPERATORS[name](value)
 
     def compare(self, value: Any) -> bool:
         """Compare given value with the expression's value."""
@@ -295,27 +305,37 @@ def _get_type(val: Any) -> str:
 
 def _less_than_operator(v_ref: Any) -> ComparisonExpression:
     """Create less then comparison expression."""
-    return ComparisonExpression(lambda val, v_ref=v_ref: val < v_ref, v_ref)
+    return ComparisonExpression(
+        lambda val, v_ref=v_ref: val < v_ref, v_ref, "less_than"
+    )
 
 
 def _equal_or_less_than_operator(v_ref: Any) -> ComparisonExpression:
     """Create equal or less than comparison expression."""
-    return ComparisonExpression(lambda val, val_ref=v_ref: val <= val_ref, v_ref)
+    return ComparisonExpression(
+        lambda val, val_ref=v_ref: val <= val_ref, v_ref, "equal_less_than"
+    )
 
 
 def _greater_than_operator(v_ref: Any) -> ComparisonExpression:
     """Create less then comparison expression."""
-    return ComparisonExpression(lambda val, val_ref=v_ref: val > val_ref, v_ref)
+    return ComparisonExpression(
+        lambda val, val_ref=v_ref: val > val_ref, v_ref, "greater_than"
+    )
 
 
 def _equal_or_greater_than_operator(v_ref: Any) -> ComparisonExpression:
     """Create equal or less than comparison expression."""
-    return ComparisonExpression(lambda val, val_ref=v_ref: val >= val_ref, v_ref)
+    return ComparisonExpression(
+        lambda val, val_ref=v_ref: val >= val_ref, v_ref, "equal_greater_than"
+    )
 
 
 def _not_equal_to_operator(v_ref: Any) -> ComparisonExpression:
     """Create a not equal comparison expression."""
-    return ComparisonExpression(lambda val, val_ref=v_ref: val != val_ref, v_ref)
+    return ComparisonExpression(
+        lambda val, val_ref=v_ref: val != val_ref, v_ref, "not_equal_to"
+    )
 
 
 def _flows_info(state: State, flow_instance_uid: Optional[str] = None) -> dict:
@@ -371,3 +391,12 @@ def _get_flow_state_hierarchy(state: State, flow_state_uid: str) -> List[str]:
         result = _get_flow_state_hierarchy(state, flow_state.parent_uid)
         result.append(flow_state.uid)
         return result
+
+
+COMPARISON_OPERATORS = {
+    "less_than": _less_than_operator,
+    "equal_less_than": _equal_or_less_than_operator,
+    "greater_than": _greater_than_operator,
+    "equal_greater_than": _equal_or_greater_than_operator,
+    "not_equal_to": _not_equal_to_operator,
+}
